@@ -43,6 +43,7 @@ type CallGraph struct {
 	fieldFuncs  map[*types.Var][]*ssa.Function
 	globalFuncs map[*ssa.Global][]*ssa.Function
 	addrTaken   []*ssa.Function
+	paramFuncs  map[*ssa.Parameter][]*ssa.Function // function values passed for a function-typed parameter at static call sites
 	implCache   map[*types.Func][]*ssa.Function
 	allTypes    []types.Type
 }
@@ -56,7 +57,7 @@ func (p *Prog) CG() *CallGraph {
 
 func buildCG(p *Prog) *CallGraph {
 	g := &CallGraph{P: p, Out: map[*ssa.Function][]*CGEdge{}, In: map[*ssa.Function][]*CGEdge{},
-		fieldFuncs: map[*types.Var][]*ssa.Function{}, globalFuncs: map[*ssa.Global][]*ssa.Function{}, implCache: map[*types.Func][]*ssa.Function{}}
+		fieldFuncs: map[*types.Var][]*ssa.Function{}, globalFuncs: map[*ssa.Global][]*ssa.Function{}, implCache: map[*types.Func][]*ssa.Function{}, paramFuncs: map[*ssa.Parameter][]*ssa.Function{}}
 	// all named types of module packages (and their pointers) for CHA
 	for _, pkg := range p.Pkgs {
 		sc := pkg.Types.Scope()
@@ -105,6 +106,24 @@ func buildCG(p *Prog) *CallGraph {
 				if f != nil && !seenAT[f] {
 					seenAT[f] = true
 					g.addrTaken = append(g.addrTaken, f)
+				}
+			}
+		})
+	}
+	// function values passed as arguments at static call sites
+	for _, fn := range p.CGFuncs {
+		allInstrs(fn, func(in ssa.Instruction) {
+			cc := callCommon(in)
+			if cc == nil || cc.IsInvoke() {
+				return
+			}
+			callee := cc.StaticCallee()
+			if callee == nil || callee.Blocks == nil {
+				return
+			}
+			for i, a := range cc.Args {
+				if f := resolveFuncValue(a); f != nil && i < len(callee.Params) {
+					g.paramFuncs[callee.Params[i]] = append(g.paramFuncs[callee.Params[i]], f)
 				}
 			}
 		})
@@ -218,6 +237,11 @@ func (g *CallGraph) implementations(m *types.Func, recvType types.Type) []*ssa.F
 func (g *CallGraph) funcValueTargets(v ssa.Value) []*ssa.Function {
 	if f := resolveFuncValue(v); f != nil {
 		return []*ssa.Function{f}
+	}
+	if par, ok := strip(v).(*ssa.Parameter); ok {
+		if fs := g.paramFuncs[par]; len(fs) > 0 {
+			return dedupFuncs(fs)
+		}
 	}
 	if _, fld, ok := fieldLoad(v); ok {
 		if fs := g.fieldFuncs[fld]; len(fs) > 0 {
